@@ -132,7 +132,12 @@ def m_panic(eng, call, args):
        "std::slice::<impl [T]>::len", "std::vec::Vec::<T, A>::len", "std::string::String::len",
        "std::str::<impl str>::len", "std::collections::BTreeSet::<T, A>::len")
 def m_len(eng, call, args):
-    return eng.length(call["state"], val(eng, call, args[0]))
+    r = eng.length(call["state"], val(eng, call, args[0]))
+    names = " ".join(call.get("norm_names", []))
+    subs = call.get("substs") or []
+    if r.op == "len" and subs and ("impl [T]>::len" in names or "Vec::<T, A>::len" in names):
+        eng.len_elem[r.id] = subs[0]          # element type of the measured Vec / slice (INV-ALLOC)
+    return r
 
 
 @model("std::slice::<impl [T]>::is_empty", "std::vec::Vec::<T, A>::is_empty",
@@ -579,6 +584,124 @@ def m_unwrap(eng, call, args):
     return mk("payload", v, want, 0)
 
 
+# ---- Option / Result combinators (refactoring idioms) ---------------------------------------------------------------
+def _enum_name(call):
+    return "std::option::Option" if any("option::Option" in x for x in call["norm_names"]) else "std::result::Result"
+
+
+def _as(call, v):
+    if _enum_name(call).endswith("Option"):
+        return as_enum(v, "std::option::Option", OPT), "std::option::Option", 1, ("Some", "None", 0)
+    return as_enum(v, "std::result::Result", RES), "std::result::Result", 0, ("Ok", "Err", 1)
+
+
+def _strip_ref(x):
+    return x.args[0] if x.op == "refv" else mk("deref", x)
+
+
+@model("std::option::Option::<&T>::copied", "std::option::Option::<&T>::cloned", "std::option::Option::<&mut T>::copied",
+       "std::option::Option::<&mut T>::cloned", "std::result::Result::<&T, E>::copied", "std::result::Result::<&T, E>::cloned")
+def m_opt_copied(eng, call, args):
+    v, adt, good, _ = _as(call, args[0])
+    return map_alts(v, lambda i, vn, fs: (adt, i, vn, [_strip_ref(x) for x in fs] if i == good else fs))
+
+
+def _with_alt_context(r, alt):
+    """an enum produced while handling alternative `alt` of another enum inherits that alternative's facts/origins"""
+    if r.op != "enum":
+        return r
+    out = []
+    for (i, vn, fs, facts, origins) in r.args[1]:
+        out.append((i, vn, fs, frozenset(facts) | frozenset(alt[3]) if not origins and not alt[4] else frozenset(facts),
+                    origins if origins else alt[4]))
+    return mk("enum", r.args[0], tuple(out))
+
+
+@model("std::option::Option::<T>::map", "std::result::Result::<T, E>::map")
+def m_opt_map(eng, call, args):
+    v, adt, good, _ = _as(call, args[0])
+
+    def f(i, vn, fs):
+        if i != good:
+            return (adt, i, vn, fs)
+        r = eng.invoke_value(call, args[1], list(fs), tag="#omap")
+        return (adt, i, vn, [r if r is not None else mk("ext", "map", *fs)])
+    return map_alts(v, f)
+
+
+@model("std::option::Option::<T>::and_then", "std::result::Result::<T, E>::and_then")
+def m_opt_and_then(eng, call, args):
+    v, adt, good, names = _as(call, args[0])
+    inc = {}
+    for alt in v.args[1]:
+        if alt[0] != good:
+            inc[("pass", alt[0])] = mk("enum", adt, (alt,))
+            continue
+        r = eng.invoke_value(call, args[1], list(alt[2]), tag="#andthen")
+        if r is None:
+            continue
+        if r.op != "enum":
+            r = as_enum(r, adt, OPT if adt.endswith("Option") else RES)
+        inc[("then", alt[0])] = _with_alt_context(r, alt)
+    if not inc:
+        return None
+    return eng.join_values(("andthen", call["site"]), inc)
+
+
+@model("std::option::Option::<T>::ok_or_else")
+def m_ok_or_else(eng, call, args):
+    v = as_enum(args[0], "std::option::Option", OPT)
+    R = "std::result::Result"
+
+    def f(i, vn, fs):
+        if i == 1:
+            return (R, 0, "Ok", fs)
+        r = eng.invoke_value(call, args[1], [], tag="#ooe")
+        return (R, 1, "Err", [r if r is not None else mk("ext", "ok_or_else")])
+    return map_alts(v, f)
+
+
+@model("std::option::Option::<T>::unwrap_or", "std::result::Result::<T, E>::unwrap_or")
+def m_unwrap_or(eng, call, args):
+    v, adt, good, _ = _as(call, args[0])
+    inc = {}
+    for a in v.args[1]:
+        inc["good" if a[0] == good else "other"] = (a[2][0] if a[2] else mk("unit")) if a[0] == good else args[1]
+    return eng.join_values(("uo", call["site"]), inc)
+
+
+@model("std::option::Option::<T>::is_some_and", "std::option::Option::<T>::is_none_or", "std::result::Result::<T, E>::is_ok_and")
+def m_is_some_and(eng, call, args):
+    v, adt, good, _ = _as(call, args[0])
+    meth = call["norm_names"][-1].split("::")[-1]
+    inc = {}
+    for a in v.args[1]:
+        if a[0] == good:
+            r = eng.invoke_value(call, args[1], list(a[2]), tag="#isa")
+            inc["good"] = r if r is not None else mk("ext", meth)
+        else:
+            inc["other"] = Int(1 if meth == "is_none_or" else 0, "bool")
+    return eng.join_values(("isa", call["site"]), inc)
+
+
+@model("std::option::Option::<T>::get_or_insert")
+def m_get_or_insert(eng, call, args):
+    """*self = Some(v) only while *self is None; returns &mut to the payload.  The new value is a join keyed ("goi", site)
+    with incoming {"keep": old, "set": Some(v)} - the shape of `if x.is_none() { x = Some(v) }` (see panic._set_once)."""
+    old = val(eng, call, args[0])
+    from .terms import PHI
+    key = ("goi", call["site"])
+    inc = {"keep": old, "set": opt_some(args[1])}
+    if PHI.get(key) != inc:
+        PHI[key] = inc
+        eng.phi_changed = True
+    new = mk("phi", key)
+    eng.assign_through(call, args[0], new)
+    if args[0].op == "ref":
+        return mk("ref", args[0].args[0], args[0].args[1] + (("v", 1), ("f", 0)))
+    return mk("refv", mk("payload", new, 1, 0))
+
+
 @model("std::option::Option::<T>::unwrap_or_else")
 def m_unwrap_or_else(eng, call, args):
     v = as_enum(args[0], "std::option::Option", OPT)
@@ -711,6 +834,22 @@ def m_next(eng, call, args):
         if g is not None:
             return eng.inline(call, g, args, [])
     it = val(eng, call, args[0])
+    fr = call["frame"]
+    b = call["block"]
+    in_loop = any(fr.cfg.dominates(h, b) and h in fr.cfg.reachable_from(b) for h in fr.cfg.loop_heads())
+    base = it
+    while base.op == "adapted" and base.args[1] in ("peekable", "by_ref", "fuse"):
+        base = base.args[0]
+    if not in_loop and base.op == "iter" and args[0].op == "ref" and not (base.args[0].op == "agg" and base.args[0].args[0] == "array"):
+        # `let first = it.next()` on a fresh iterator outside any loop: the FIRST element; the iterator then stands on the rest
+        from .sym import index as sym_index
+        first = sym_index(base.args[0], Int(0, "usize"))
+        e = mk("refv", first) if base.args[1] else first
+        eng.assign_through(call, args[0], mk("adapted", it, "skip", Int(1, "usize")))
+        return two_way("std::option::Option", [
+            (0, "None", [], [(mk("iter_empty", it), "eq", 1)]),
+            (1, "Some", [e], [(mk("iter_empty", it), "eq", 0)]),
+        ])
     e = elem_of(eng, call, it)
     facts = list(iter_facts(it))
     if e.op == "range_elem":
@@ -1187,6 +1326,13 @@ def m_map_get(eng, call, args):
     ])
 
 
+@model("std::collections::BTreeMap::<K, V, A>::contains_key", "std::collections::HashMap::<K, V, S, A>::contains_key")
+def m_map_contains_key(eng, call, args):
+    m = val(eng, call, args[0])
+    k = val(eng, call, args[1])
+    return mk("map_has", m, k)
+
+
 @model("std::collections::HashMap::<K, V, S, A>::entry")
 def m_entry(eng, call, args):
     m = val(eng, call, args[0])
@@ -1306,6 +1452,22 @@ def m_split_at(eng, call, args):
     n = eng.length(call["state"], v)
     call["pre"] = ("le", args[1], n)
     return mk("agg", "tuple", mk("refv", mk_slice(eng, call, v, Int(0), args[1])), mk("refv", mk_slice(eng, call, v, args[1], n)))
+
+
+@model("std::slice::<impl [T]>::split_first", "std::slice::<impl [T]>::split_last")
+def m_split_first_last(eng, call, args):
+    v = val(eng, call, args[0])
+    n = eng.length(call["state"], v)
+    c = binop("Eq", n, Int(0), "usize")
+    which = call["norm_names"][0].split("::")[-1]
+    from .sym import index as sym_index
+    if which == "split_first":
+        e, rest = sym_index(v, Int(0)), mk_slice(eng, call, v, Int(1), n)
+    else:
+        last = binop("Sub", n, Int(1), "usize")
+        e, rest = sym_index(v, last), mk_slice(eng, call, v, Int(0), last)
+    pair = mk("agg", "tuple", mk("refv", e), mk("refv", rest))
+    return two_way("std::option::Option", [(0, "None", [], [(c, "eq", 1)]), (1, "Some", [pair], [(c, "eq", 0)])])
 
 
 @model("std::slice::<impl [T]>::first", "std::slice::<impl [T]>::last")
